@@ -137,16 +137,19 @@ def cmd_check(args):
 
     def confirm_and_record(engine, path, what, eprop=None):
         """replay 3x in fresh processes; record a violation only if it reproduces each time
-        (race reports of the ThreadSanitizer build depend on the schedule: there 5 replays are made and 2 reproductions suffice)"""
+        (race reports of the ThreadSanitizer build depend on the schedule: there up to 4 replays are made and 2 reproductions suffice;
+        a replay that has to be killed after its time ceiling counts as a reproduction of "the engine does not come back")"""
         eprop = eprop or pid
         okc = 0
         last = ""
         tsan = engine.endswith("_tsan")
-        tries, need = (5, 2) if tsan else (3, 3)
+        tries, need = (4, 2) if tsan else (3, 3)
         for _ in range(tries):
-            rc, out = replay_case(bins[engine], eprop, path, known_ids)
+            rc, out = replay_case(bins[engine], eprop, path, known_ids, timeout=120 if tsan else 180)
+            if tsan and okc >= need:
+                break
             last = out
-            if rc == 1 or rc < 0 or rc > 5 or "ERROR: AddressSanitizer" in out or "runtime error:" in out or "ThreadSanitizer:" in out:
+            if rc == 1 or rc < 0 or rc > 5 or (rc == 5 and tsan) or "ERROR: AddressSanitizer" in out or "runtime error:" in out or "ThreadSanitizer:" in out:
                 okc += 1
         if okc >= need:
             h = hashlib.sha1(open(path, "rb").read()).hexdigest()[:12]
@@ -313,6 +316,9 @@ def cmd_check(args):
             cur = os.path.join(work, "cur_%s_w%d.bin" % (j.get("prop", pid), ji * 100 + w))
             if rc == -9:
                 inconclusive.append("worker j%d w%d hit its wall-clock ceiling (inconclusive, not a violation)" % (ji, w))
+                continue
+            if rc == 5 and "WATCHDOG" in log:
+                inconclusive.append("worker j%d w%d: a case exceeded the per-case time ceiling (inconclusive, not a violation)" % (ji, w))
                 continue
             if os.path.exists(cur):
                 keep = os.path.join(work, "crash_j%d_w%d.bin" % (ji, w))
@@ -496,7 +502,7 @@ def cmd_replay(args):
     meta = None
     if path.endswith(".json"):
         meta = json.load(open(path))
-        if meta.get("kind") in ("program", "program17"):
+        if meta.get("kind") in ("program", "program17", "program13"):
             from vlib import compiled as COMPILED
             return COMPILED.replay(path)
     elif os.path.exists(path + ".meta.json"):
